@@ -84,10 +84,15 @@ CHECKS = {
            'Bounded only: the string scanners are outside the verifier.'),
  'C15': _b('Validator soundness on a mutation grammar (single mutations quick, double thorough) of written JSON / HDF5 '
            'files, completeness on everything the writers produce, accepted => loads. Deductive part (Tier P, soundness of the '
-           'JSON validators): _valid_sparse_data (every entry an integer triple inside the declared shape with the declared '
-           'element type), _valid_rows / _valid_columns (non-empty ids, null-or-object metadata, no duplicate id), _valid_id, '
-           '_valid_metadata, _valid_shape, _valid_matrix_type, _valid_matrix_element_type; their composition in _validate_json, '
-           'the dense-matrix and HDF5 validators are bounded only.', technique=TECH),
+           'JSON validator): _validate_json reports valid only if all twelve required fields are present, the declared shape is '
+           'a pair of integers equal to the numbers of row and column records, every record has a non-empty id and null-or-object '
+           'metadata, no id occurs twice on its axis, matrix type and element type are from the vocabulary, every sparse '
+           'coordinate is an integer triple inside the shape whose value has the declared type, every dense row has the '
+           'declared width and element type - proved function by function: _valid_sparse_data, _valid_dense_data, _valid_data, '
+           '_valid_rows / _valid_columns, _valid_id, _valid_metadata, _valid_shape, _valid_matrix_type, '
+           '_valid_matrix_element_type, _valid_format / _format_url / _type / _generated_by / _nullable_id and the composing '
+           'loop of _validate_json. Assumed: _is_int, _valid_date, str.lower on the two literals, reduce(and_). The HDF5 '
+           'validators, completeness and "accepted => loads" are bounded only.', technique=TECH),
  'C16': _b('Contract of == / != / descriptive_equality (depends on content only; equivalence relation; accessors do not '
            'change content; equal tables export equally) over equal-content routes x accessor interleavings, and all '
            'single-difference pairs. Deductive part (Tier A, view-level scipy model): __eq__, __ne__, descriptive_equality and '
